@@ -329,3 +329,9 @@ def c01(ctx):
         C.TVJob('corpus', gen_corpus(ctx, 'C01', 'tvc01'), 'tvc01', chunks=8, unwind=8, deadline_s=120 if ctx.quick else 600, prefix='C01.'),
         C.TVJob('corpus-cabi', gen_corpus(ctx, 'C01', 'tvc01'), 'tvc01', chunks=8, unwind=8, deadline_s=120 if ctx.quick else 600, prefix='C01.cabi.', extra=['--abi', '2']),
     ]
+
+
+@prop('C04', level='translation_validation', title='defer, panic, recover ordering')
+def c04(ctx):
+    C = _check()
+    return [C.TVJob('shapes', gen_py(ctx, 'C04'), 'tvc04', chunks=12, unwind=8, deadline_s=120 if ctx.quick else 600, prefix='C04.')]
